@@ -1,6 +1,7 @@
 from common import COMMON_ASSUME
 
-_MUT = ["SafeStore", "CopyOnReuse", "GuardTypedNil", "BinMarshalerOpts", "ClonesCapLimited", "ParseErrorWins", "SharedSkipCounter"]
+_MUT = ["SafeStore", "CopyOnReuse", "GuardTypedNil", "BinMarshalerOpts", "ClonesCapLimited", "ParseErrorWins", "SharedSkipCounter",
+        "FreshStore", "RewindsSeekable", "FlagsReset"]
 
 PROP = dict(
     module="CSVCodec",
